@@ -848,7 +848,7 @@ void eval_instruction (const char *p) {
             s = fp + EXTRACT_UCHAR (pc++);
             if (s->type == T_NUMBER)
               {
-                i = (int)s->u.number--;
+                i = (s->u.number-- != 0); /* do not truncate the 64-bit counter to int */
               }
             else if (s->type == T_REAL)
               {
